@@ -1502,11 +1502,9 @@ class MPO(MPSGeometry):
         for i in range(self.L - 1):
             Ws[i].legs[1] = wR = Ws[i].legs[1].flip_charges_qconj()
             Ws[i + 1].legs[0] = wR.conj()
-        Ws[-1].legs[1] = wR = Ws[-1].legs[1].flip_charges_qconj()
-        if self.finite:
-            Ws[0].legs[0] = Ws[0].legs[0].flip_charges_qconj()
-        else:
-            Ws[0].legs[0] = wR.conj()
+        Ws[-1].legs[1] = Ws[-1].legs[1].flip_charges_qconj()
+        # (for infinite bc, the charges of the left-most leg can be shifted compared to the right-most leg)
+        Ws[0].legs[0] = Ws[0].legs[0].flip_charges_qconj()
         # could keep graph in principle and only conjugate the operators
         # but its probably not worth the effort since building it is very fast
         return MPO(
